@@ -44,6 +44,7 @@ fn main() {
                 }
                 o.flush(&mut out);
                 writeln!(out, "end").unwrap();
+                out.flush().unwrap();
             }
             _ => cur.push(toks),
         }
